@@ -277,8 +277,14 @@ Section RecIntMG.
   Definition rm_add (p : Z) (b c : Z) : Z :=              (* add(r, a, b, c); if (r || a >= p) sub(a, p) *)
     let s := b + c in let a := s mod B in
     if (B <=? s) || (p <=? a) then (a - p) mod B else a.
-  Definition rm_sub (p : Z) (b c : Z) : Z :=              (* if (b < c) { sub(a, p, c); add(a, b) } else sub(a, b, c) *)
-    if b <? c then (((p - c) mod B) + b) mod B else (b - c) mod B.
+  (* rmsub.h sub(a, b, c) as repaired by frag/C07.fix-6: if (b < c) { sub(a, b, c); add(a, p) } else sub(a, b, c).
+     No operand is read after the destination is first written, so the destination may be b or c. *)
+  Definition rm_sub (p : Z) (b c : Z) : Z :=
+    if b <? c then (((b - c) mod B) + p) mod B else (b - c) mod B.
+  (* the body BEFORE fix-6, { sub(a, p, c); add(a, b) }, executed with the destination being the same object as b:
+     the second statement reads b after it was overwritten.  Not extracted; kept for the refutation in ProofsRec.v *)
+  Definition rm_sub_old_dst_is_b (p : Z) (b c : Z) : Z :=
+    if b <? c then let a := (p - c) mod B in (a + a) mod B else (b - c) mod B.
   Definition rm_subin (p : Z) (a b : Z) : Z :=            (* if (a < b) add(a, p - b) else sub(a, b) *)
     if a <? b then (a + ((p - b) mod B)) mod B else (a - b) mod B.
   Definition rm_neg (p : Z) (b : Z) : Z := if b =? 0 then 0 else (p - b) mod B.
@@ -417,7 +423,9 @@ Section RecIntMG.
     Definition mr_mul (a b : Z) : Z := mr_reduc (a * b).
     Definition mr_to_mg (b : Z) : Z := mr_mul b (g_r2 M).
     Definition mr_add := rm_add p.
-    Definition mr_sub := rm_sub p.
+    (* montgomery-ruint.inl sub: lt = (a < b); sub(r, a, b); if (lt) add(r, _p) *)
+    Definition mr_sub (a b : Z) : Z :=
+      let lt := a <? b in let r := (a - b) mod B in if lt then (r + p) mod B else r.
     Definition mr_subin := rm_subin p.
     Definition mr_neg := rm_neg p.
     Definition mr_inv (a : Z) : Z := mr_mul (inv_mod B a p) (g_r3 M).          (* inv_mod; mulin(r, _r3) *)
